@@ -1,7 +1,7 @@
 SPECIFICATION Spec
 CONSTANTS
   Cls = "regexp"
-  T = {1, 2}
+  T = {1, 2, 3}
   Obs <- ObsEmit
 INVARIANT TypeOK
 PROPERTY Independent
